@@ -79,6 +79,12 @@ pub(super) fn extract_default_aliases(
         status.appears_unaliased = true;
     }
 
+    // The start rule also appears, unaliased, as the root of every tree: a default alias
+    // would rename the root node to something that is not the grammar's start rule.
+    if let Some(status) = non_terminal_status_list.first_mut() {
+        status.appears_unaliased = true;
+    }
+
     let symbols_with_statuses = terminal_status_list
         .iter_mut()
         .enumerate()
